@@ -155,8 +155,9 @@ def build_akai(model):
                 size = f.get("size", len(data))
                 layout[fwho + ".entry"] = ("dir", len(table), 24, who)
                 table += file_entry(f["name"], f["ftype"], size, f["chain"][0])
-                link(f["chain"], fwho)
-                put(f["chain"], data, fwho)
+                if not f.get("alias"):      # (alias: a second directory entry naming the chain of an earlier file)
+                    link(f["chain"], fwho)
+                    put(f["chain"], data, fwho)
                 layout[fwho + ".data"] = (P + f["chain"][0] * SECTOR, min(len(data), SECTOR))
             if vol.get("terminator", True):
                 table += terminator_entry()
@@ -250,6 +251,8 @@ def model_from_spec(spec):
                     ff = {"name": f["name"], "ftype": f["ftype"], "chain": f["chain"], "data": data, "kind": "raw"}
                 if "size" in f:
                     ff["size"] = f["size"]
+                if f.get("alias"):
+                    ff["alias"] = True
                 files.append(ff)
                 top = max(top, max(f["chain"]) + 1)
             top = max(top, max(v["dir"]) + 1)
